@@ -13,7 +13,7 @@
    jdec (jenc s) = Some s  (Section variables, not axioms).
    All statements: every package of the grammar, every string, every x : Z. *)
 From Coq Require Import List ZArith Bool String.
-From Shoot Require Import Model.Enum Proofs.EnumTables Proofs.EnumProofs Corr.EnumCorr.
+From Shoot Require Import Model.Enum Proofs.EnumTables Proofs.EnumProofs Corr.EnumCorr Proofs.EnumPb.
 Import ListNotations.
 Local Open Scope string_scope.
 Local Open Scope Z_scope.
@@ -128,6 +128,18 @@ Theorem C12_conversion_wraps : forall k x,
   /\ exists q, wrap k x = x + q * 2 ^ width k.
 Proof. intros k x. exact (conj (wrap_in_range k x) (conj (wrap_range k x) (wrap_congruent k x))). Qed.
 Print Assumptions C12_conversion_wraps.
+
+(* the boolean property evaluated on the implementation's observation
+   (EnumCorr.Pb12: every codec call, round trip, ParseEnum/TryParseEnum/IsEnum
+   call of the run) is implied by the theorems: the model's own observation
+   satisfies it inside the guard for ANY list of inputs (with the JSON codec
+   instance of the run, whose law is proved) *)
+Theorem C12_checked_property_follows : forall (c : case) (o : obs) k,
+  enum_guard (c_pkg c) (c_type c) = true -> kind_of_type (c_pkg c) (c_type c) = Some k ->
+  f_bit (c_flags c) = false ->
+  Pb12 c (model_obs c o) = true.
+Proof. exact Pb12_model_in_guard. Qed.
+Print Assumptions C12_checked_property_follows.
 
 (* ------------------------------------------------------------- non-vacuity *)
 Definition vs (names : list string) (ty : vtype) (vals : list cexpr) : vspec :=
